@@ -160,6 +160,33 @@ def by_opposing_insertion(eng, insertion_id=1, measure="count_weighted", directi
     return structure_obs(eng, rorder, values, direction != "ascending", [], [], w.cat_ids(0))
 
 
+def rows_by_derived_ca_column(eng, direction="descending"):
+    """categorical array sliced as categories (rows) x sub-variables (columns); one sub-variable column is a derived insertion
+    computed by the backend; rows sorted by that opposing insertion (repository fixture ca-cat-x-ca-subvar.json as template,
+    three valid categories, weighted counts symbolic)"""
+    import json
+    from symx.inject import SymList
+    raw = json.load(open("/repo/tests/fixtures/ca-cat-x-ca-subvar.json"))
+    res = raw.get("value", raw)["result"]
+    cats = res["dimensions"][0]["type"]["categories"]
+    for c in cats:
+        if c["id"] in (4, 5):
+            c["missing"] = True
+    brown = res["dimensions"][1]["type"]["elements"][1]["value"]
+    brown["derived"] = True
+    brown["references"]["anchor"] = {"position": "after", "alias": "douglass"}
+    n = len(res["counts"])
+    res["measures"]["count"]["data"] = SymList([eng.real("w%d" % k, lo=0) for k in range(n)])
+    tr = {"rows_dimension": {"order": {"type": "opposing_insertion", "insertion_id": "brown", "measure": "col_percent", "direction": direction}}}
+    T = Cube(raw, transforms=tr).partitions[0]
+    rorder = [int(i) for i in T.row_order()]
+    corder = [int(i) for i in T.column_order()]
+    jc = corder.index(1)
+    M = T.column_proportions.view(np.ndarray)
+    values = [M[i, jc] for i in range(len(rorder))]
+    return structure_obs(eng, rorder, values, direction != "ascending", [], [], [0, 2, 3])
+
+
 def columns_by_base_row(eng, element_id=3, measure="row_percent", direction="ascending"):
     cols = ("cat", "b", 3, {"missing_at": (0,), "insertions": [S("c12", [1, 2])]})
     rows = ("cat", "a", 3, {"missing_at": (1,)})
@@ -249,6 +276,7 @@ def specs(tier):
     add("rows by unknown element id", "by_opposing_element", dict(measure="col_percent", element_id=77))
     add("rows by measure absent from the response", "by_opposing_element", dict(measure="mean"))
     add("rows by inserted column", "by_opposing_insertion", dict())
+    add("rows by a derived sub-variable column of a categorical array", "rows_by_derived_ca_column", dict())
     add("rows by unknown insertion id", "by_opposing_insertion", dict(insertion_id=9))
     # scale_mean_stderr is not claimed: its feasibility queries (radical over a ratio of quadratic forms) do not finish in 15 min
     for mg in ("weighted_base", "table_proportion") if tier == "quick" else ("scale_mean", "scale_mean_stddev", "table_proportion", "unweighted_base", "weighted_base"):
